@@ -212,6 +212,19 @@ func doDec(out *bufio.Writer, cid string, data []byte) {
 	}
 	fmt.Fprintf(out, "REENC %s %s\n", cid, hex.EncodeToString(b2.Bytes()))
 }
+func doEncA(out *bufio.Writer, i int) {
+	// a connection buffer in use: two copies of message 0 are written, the first is decoded (consumed), then message i is appended
+	defer func() {
+		if r := recover(); r != nil { fmt.Fprintf(out, "ENCA %d ERR PANIC: %s\n", i, clean(fmt.Sprint(r))) }
+	}()
+	var buf bytes.Buffer
+	for k := 0; k < 2; k++ {
+		if err := builders[0]().Encode(&buf); err != nil { fmt.Fprintf(out, "ENCA %d SKIP first: %s\n", i, clean(err.Error())); return }
+	}
+	if err := (&@ROOT@{}).Decode(&buf); err != nil { fmt.Fprintf(out, "ENCA %d SKIP decode: %s\n", i, clean(err.Error())); return }
+	if err := builders[i]().Encode(&buf); err != nil { fmt.Fprintf(out, "ENCA %d ERR %s\n", i, clean(err.Error())); return }
+	fmt.Fprintf(out, "ENCA %d %s\n", i, hex.EncodeToString(buf.Bytes()))
+}
 func doDecR(out *bufio.Writer, cid string, a, b []byte) {
 	defer func() {
 		if r := recover(); r != nil { fmt.Fprintf(out, "DECERR %s PANIC: %s\n", cid, clean(fmt.Sprint(r))) }
@@ -242,6 +255,11 @@ func main() {
 			fmt.Sscanf(parts[1], "%d", &i)
 			fmt.Fprintf(out, "BEGIN E %d\n", i); out.Flush()
 			doEnc(out, i)
+		} else if parts[0] == "A" {
+			var i int
+			fmt.Sscanf(parts[1], "%d", &i)
+			fmt.Fprintf(out, "BEGIN A %d\n", i); out.Flush()
+			doEncA(out, i)
 		} else if parts[0] == "U" {
 			var i int
 			fmt.Sscanf(parts[1], "%d", &i)
